@@ -327,10 +327,59 @@ class Sym:
     def __reduce__(s): raise TypeError('Sym is not picklable')
 
 
+def linform(n, memo=None):
+    """{var name: coef, '': const} if the node is an affine expression of variables, else None"""
+    if memo is None:
+        memo = {}
+    for x in topo([n]):
+        op = x.op
+        if op == 'const':
+            r = {'': cv(x)}
+        elif op == 'var':
+            r = {x.args[0]: Fraction(1), '': Fraction(0)}
+        elif op == 'neg':
+            a = memo[x.args[0].id]
+            r = None if a is None else {k: -v for k, v in a.items()}
+        elif op == '+':
+            a, b = memo[x.args[0].id], memo[x.args[1].id]
+            if a is None or b is None:
+                r = None
+            else:
+                r = dict(a)
+                for k, v in b.items():
+                    r[k] = r.get(k, Fraction(0)) + v
+        elif op == '*':
+            a, b = memo[x.args[0].id], memo[x.args[1].id]
+            if a is None or b is None:
+                r = None
+            elif all(k == '' for k in a if a[k] != 0):
+                r = {k: v * a.get('', Fraction(0)) for k, v in b.items()}
+            elif all(k == '' for k in b if b[k] != 0):
+                r = {k: v * b.get('', Fraction(0)) for k, v in a.items()}
+            else:
+                r = None
+        else:
+            r = None
+        memo[x.id] = r
+    return memo[n.id]
+
+
+def canon_linear(n):
+    """canonical node for an affine argument (so that syntactically different but equal affine
+    arguments of an uninterpreted function share one application node); other nodes unchanged"""
+    lf = linform(n)
+    if lf is None:
+        return n
+    r = const(lf.get('', Fraction(0)))
+    for k in sorted(k for k in lf if k != '' and lf[k] != 0):
+        r = add(r, mul(const(lf[k]), var(k)))
+    return r
+
+
 def _ufc(name, a):
     if isc(a):
         return const(Fraction(getattr(math, name)(float(cv(a)))))
-    return uf(name, a)
+    return uf(name, canon_linear(a))
 
 
 class SymB:
